@@ -952,6 +952,18 @@ func pinnedCases() []*Case {
 			Hist: []bool{false, false}, Cfg: def, Unpack: true,
 			Probes: []string{".", "/", "..data", "/..data", "./..data", "..data/config", "/..data/config", "..version", "/..version", "...", "/...",
 				".hidden", "/.hidden", "./.hidden", ".whatever", "/.whatever", "etc", "etc/..d", "/etc/..d", "etc/..d/x", "etc/..x", "zz/none"}},
+		// directories replaced by symbolic links (to a file, to a directory, dangling): the former contents must
+		// be gone for direct lookups too
+		{Stream: "pinned", Layers: [][]Entry{
+			{d("d1", 0o755), f("d1/x", 0o644, "x1"), d("d1/sub", 0o755), f("d1/sub/z", 0o644, "z1"),
+				d("d2", 0o755), f("d2/x", 0o644, "x2"), d("d2/sub", 0o755), f("d2/sub/z", 0o644, "z2"),
+				d("d3", 0o755), f("d3/x", 0o644, "x3"), d("d3/sub", 0o755), f("d3/sub/z", 0o644, "z3"),
+				d("t", 0o755), f("t/x", 0o644, "tx"), f("file", 0o644, "ff")},
+			{Entry{Name: "d1", Kind: "sym", Mode: 0o777, Target: "/file"}, Entry{Name: "d2", Kind: "sym", Mode: 0o777, Target: "t"},
+				Entry{Name: "d3", Kind: "sym", Mode: 0o777, Target: "/nowhere"}}},
+			Hist: []bool{false, false}, Cfg: def,
+			Probes: []string{".", "d1", "d1/x", "d1/sub", "d1/sub/z", "d2", "d2/x", "/d2/x", "d2/sub", "d2/sub/z", "d3", "d3/x", "d3/sub", "d3/sub/z",
+				"t", "t/x", "file", "zz/none"}},
 		// setuid / setgid / sticky on files and explicit directories, in every view
 		{Stream: "pinned", Layers: [][]Entry{
 			{d("tmp", 0o1777), d("bin", 0o755), f("bin/su", 0o4755, "su"), d("srv", 0o2750), f("srv/g", 0o2644, "g"), f("all", 0o7777, "all")},
